@@ -129,7 +129,7 @@ var c10Alphabets = map[string]*c10Alphabet{
 		process: c10Values([]int{0x10, 0x13, 0x14, 0x30, 0x31, 0x40, 0x41, 0x50, 0x51}, []uint32{1, 2}, []int{100, 200}, false)},
 	// many pairwise different descriptors that share one of two signal times
 	"burst": {name: "burst", closeBy: "index", nClose: 2, again: true,
-		process: c10Values([]int{0x20, 0x10, 0x22, 0x30, 0x34, 0x40, 0x50}, []uint32{1, 2, 3}, []int{500, 600}, false)},
+		process: c10Values([]int{0x20, 0x10, 0x22, 0x30, 0x34, 0x40, 0x50, 0x21, 0x11, 0x23, 0x31, 0x35, 0x41, 0x51}, []uint32{1, 2, 3, 4, 5, 6, 7, 8, 9, 10}, []int{500, 600}, false)},
 	// unscheduled-event starts that carry a stream-switch signal id (the tracker compares those ids)
 	"vss": {name: "vss", closeBy: "index", nClose: 2, again: true, process: c10VSSValues()},
 	"distinct-pts": {name: "distinct-pts", closeBy: "index", nClose: 3, again: false, autoPTS: true,
@@ -708,6 +708,12 @@ func c10LongHistory(c c10Long) []int {
 		for i := 0; i < c.N; i++ {
 			h = append(h, idxPTS(burstTypes[i/3], uint32(1+i%3), 500), idxPTS(burstTypes[i/3], uint32(1+i%3), 600))
 		}
+	case 10: // N different END descriptors with one signal time and nothing open that they could end: each is
+		// turned down (no matching start) but remembered, so its immediate repetition is a duplicate
+		ends := []int{0x21, 0x11, 0x23, 0x31, 0x35, 0x41, 0x51}
+		for i := 0; i < c.N; i++ {
+			h = append(h, idxPTS(ends[i%7], uint32(1+i/7), 500))
+		}
 	case 7: // N different descriptors with one signal time, each closed explicitly before the next arrives
 		for i := 0; i < c.N; i++ {
 			h = append(h, idxPTS(burstTypes[i%7], uint32(1+i/7), 500), closeOp(0))
@@ -775,14 +781,17 @@ func init() {
 			},
 			&engine.Enum[c10Long]{
 				Name: "same-pts-bursts",
-				Rule: "three patterns of N = 1..11 (thorough 1..14) pairwise different descriptors (7 opening types x event id 1..3) that all carry the same signal time (one PTS; alternating with a second PTS; each closed explicitly before the next), so that the tracker's record for one signal time holds many descriptors; the same object is processed again after every position and the identity monitor runs after every call." + common,
+				Rule: "four patterns (the fourth: end descriptors that find nothing to end, so that they are remembered without being opened) of N = 1..70 (quick: 1..16, every 9th, 63..70; the alternating pattern 1..14) pairwise different descriptors (7 opening types x event id 1..10) that all carry the same signal time (one PTS; alternating with a second PTS; each closed explicitly before the next), so that the tracker's record for one signal time holds many descriptors; the same object is processed again after every position and the identity monitor runs after every call." + common,
 				Gen: func(r *engine.Run, emit func(c10Long)) {
-					maxN := 11
-					if r.Thorough() {
-						maxN = 14
-					}
-					for p := 5; p <= 7; p++ {
+					for _, p := range []int{5, 6, 7, 10} {
+						maxN := 70 // 7 types x 10 event ids with one signal time
+						if p == 6 {
+							maxN = 14
+						}
 						for n := 1; n <= maxN; n++ {
+							if !r.Thorough() && n > 16 && n%9 != 0 && n < 63 {
+								continue // quick: 1..16, 18, 27, ..., 54, 63..70
+							}
 							base := c10Long{Pattern: p, N: n, Again: -1, Alpha: "burst"}
 							emit(base)
 							for at := 0; at < len(c10LongHistory(base)); at++ {
